@@ -90,8 +90,107 @@ CHECKS = {
     clauses=[rc('C08.diff', 20000000, 50000000), sweep('C08.consts')], floors={}),
 }
 
+# ----------------------------------------------------------------------------- engine E4: constant evaluation
+import os, re, json, subprocess, hashlib
+from concurrent.futures import ThreadPoolExecutor
+K_CONFIGS = [('g++', 'c++17', ['-DFIXEDMATH_ENABLE_SQRT_ABACUS_ALGO']), ('g++', 'c++20', []), ('g++', 'c++2b', []),
+             ('clang++', 'c++17', ['-DFIXEDMATH_ENABLE_SQRT_ABACUS_ALGO']), ('clang++', 'c++20', []), ('clang++', 'c++2b', [])]
+def _lit(v):
+    v = int(v)
+    return '(-9223372036854775807LL-1)' if v == -2**63 else '%dLL' % v
+def ce_compile(env, kcfg, cases, tag):
+    """cases: list of (name, a, b, c, expected). Returns list of (index, kind, message)."""
+    cc, std, defs = kcfg
+    src = os.path.join(env['work'], 'ce_%s_%s_%s.cc' % (cc.replace('+', 'p'), std.replace('+', 'p'), tag))
+    with open(src, 'w') as f:
+        f.write('#include "ce_entries.h"\n')
+        for i, (n, a, b, c, e) in enumerate(cases):
+            f.write('#line %d "ce_cases"\nstatic_assert(ce_%s(%s,%s,%s) == %s, "");\n' % (i + 1, n, _lit(a), _lit(b), _lit(c), _lit(e)))
+    cmd = [cc, '-std=' + std] + defs + ['-fsyntax-only', '-w', '-I' + os.path.join(env['repo'], 'fixed_lib', 'include'), '-I' + os.path.join(env['root'], 'cut'),
+           '-fmax-errors=0' if cc == 'g++' else '-ferror-limit=0', src]
+    r = subprocess.run(cmd, stdout=subprocess.PIPE, stderr=subprocess.STDOUT, text=True)
+    out = []; seen = set()
+    for m in re.finditer(r'ce_cases:(\d+):\d+: error: (.*)', r.stdout):
+        i = int(m.group(1)) - 1; msg = m.group(2)
+        if i in seen: continue
+        seen.add(i)
+        kind = 'mismatch' if ('static assertion failed' in msg or 'static_assert failed' in msg) else 'rejected'
+        out.append((i, kind, msg))
+    if r.returncode != 0 and not out:
+        return None, r.stdout[-2000:]
+    # the reason clang/gcc give for a rejection is on the following note/error lines; keep a little context
+    return out, r.stdout
+def ce_engine(env):
+    prop, tier, seed = env['prop'], env['tier'], env['seed']
+    n = 3000 if tier == 'quick' else 40000
+    sos = [env['paths'][k] for k in sorted(env['paths']) if not k.startswith('S-')]
+    casefile = os.path.join(env['work'], 'ce_cases.txt')
+    r = subprocess.run([env['exe'], 'emit', 'C08.diff', '--seed', str(seed), '--n', str(n * 2), '--out', casefile] + sos, stdout=subprocess.PIPE, stderr=subprocess.PIPE, text=True)
+    res = dict(violations=[], errors=[], known_hits={})
+    if r.returncode != 0: res['errors'].append('emit failed: ' + r.stderr[-500:]); return res
+    stats = json.loads(r.stdout.strip().splitlines()[-1])
+    cases = []
+    for l in open(casefile):
+        p = l.split();
+        if len(p) == 5: cases.append((p[0], int(p[1]), int(p[2]), int(p[3]), int(p[4])))
+    cases = cases[:n]
+    known = [e for e in env['known'] if e.get('status') == 'known' and e['property'] == prop and e.get('clause') == 'C08.ce']
+    def is_known(case, kname):
+        for e in known:
+            m = e['match']
+            if m.get('entry') and m['entry'] != case[0]: continue
+            if m.get('cfg') and m['cfg'] not in kname: continue
+            ok = True
+            for rg in m.get('box', []):
+                v = case[1 + rg['arg']]; v = abs(v) if rg.get('abs') else v
+                if v < rg['lo'] or v > rg['hi']: ok = False
+            if ok: return e['index']
+        return None
+    fails = {}; per_cfg = {}
+    def one(k):
+        kname = '%s-%s%s' % (k[0], k[1], '-abacus' if k[2] else '')
+        out, raw = ce_compile(env, k, cases, 'all')
+        return kname, out, raw
+    with ThreadPoolExecutor(6) as ex: rs = list(ex.map(one, K_CONFIGS))
+    excluded = 0
+    for kname, out, raw in rs:
+        if out is None: res['errors'].append('consteval TU failed to compile on %s:\n%s' % (kname, raw)); continue
+        per_cfg[kname] = len(cases) - len(out)
+        for i, kind, msg in out:
+            ki = is_known(cases[i], kname)
+            if ki is not None: res['known_hits'][ki] = res['known_hits'].get(ki, 0) + 1; excluded += 1; continue
+            fails.setdefault(i, []).append((kname, kind, msg))
+    # report at most two distinct entries, the case with the smallest arguments each
+    by_entry = {}
+    for i, lst in fails.items():
+        n_ = cases[i][0]; key = sum(abs(x) for x in cases[i][1:4])
+        if n_ not in by_entry or key < by_entry[n_][0]: by_entry[n_] = (key, i, lst)
+    for n_, (key, i, lst) in sorted(by_entry.items(), key=lambda kv: kv[1][0])[:3]:
+        kname, kind, msg = lst[0]
+        what = ('%s(%d,%d,%d) returns %d at run time but is %s in a constant expression on %s: %s' % (cases[i][0], cases[i][1], cases[i][2], cases[i][3], cases[i][4], 'not accepted' if kind == 'rejected' else 'evaluated to a different value', ', '.join(k for k, _, _ in lst), msg))
+        res['violations'].append(dict(property=prop, kind='ce', clause='C08.ce', entry=cases[i][0], args=list(cases[i][1:4]), expected=cases[i][4], cfg=kname, kconfigs=[k for k, _, _ in lst], what=what, tier=tier, seed=seed, failing_entries=sorted(by_entry)))
+    nt = set(c for c in cases if max(abs(c[1]), abs(c[2]), abs(c[3])) >= 2**30)
+    res['evidence'] = dict(id='C08.ce', engine='generated constant-evaluation programs', evaluations=len(cases), executions=len(cases) * len(K_CONFIGS), distinct_nontrivial=len(nt), exhaustive=False, excluded_known=excluded,
+        rule='cases drawn by the C08.diff generator for every entry point expected to be usable in a constant expression (all but the compiled table functions and detail::sqrt_std_math), restricted to cases on which all run-time builds agree; each case becomes `static_assert(ce_<entry>(a,b,c) == <run-time value>)` in a generated translation unit compiled with GCC and Clang in c++17+abacus, c++20 and c++2b; a rejected (not a constant expression) or mismatching assertion is a violation; non-trivial = an argument with |value| >= 2^30',
+        accepted_per_configuration=per_cfg, emit_stats=stats,
+        samples=[dict(entry=c[0], args=list(c[1:4]), runtime_value=c[4]) for c in (list(nt)[:3] + cases[:3])])
+    return res
+CHECKS['C08']['extra'] = [ce_engine]
+
 def setup_extra(env):
     pass
 
 def replay_extra(v, env):
+    if v.get('kind') == 'ce':
+        import tempfile
+        env = dict(env); env['work'] = tempfile.mkdtemp(prefix='fmv-ce-')
+        bad = 0
+        for k in K_CONFIGS:
+            kname = '%s-%s%s' % (k[0], k[1], '-abacus' if k[2] else '')
+            if kname not in v.get('kconfigs', [kname]): continue
+            out, raw = ce_compile(env, k, [(v['entry'], v['args'][0], v['args'][1], v['args'][2], v['expected'])], 'replay')
+            if out is None or out: bad += 1; print('REPLAY C08.ce %s%s on %s: FAIL\n%s' % (v['entry'], tuple(v['args']), kname, raw[-1500:]))
+            else: print('REPLAY C08.ce %s%s on %s: PASS' % (v['entry'], tuple(v['args']), kname))
+        import shutil; shutil.rmtree(env['work'], ignore_errors=True)
+        return 1 if bad else 0
     raise SystemExit('unknown replay kind %r' % v.get('kind'))
